@@ -201,6 +201,66 @@ def equivalence(pp):
                     viols.append(V(f"{k} | spelling-not-equivalent | concentration",
                                    f"{k} with {c!r} gives {got}, with the equivalent {cls[0]!r} gives {want}",
                                    {'parser': 'equivalence'}, want, got))
+    # ... and everywhere means everywhere: the very same string must be treated alike by the container operation and by
+    # the corresponding recipe step (whose pre-checks parse the concentration on their own)
+    mass_per_volume = ['29.2214 g/L', '29.2214 mg/mL', '0.292214 g/10 mL', '0.0292214 g/mL', '2.92214 %w/v', '29221.4 ug/mL']
+    for c in [x for cls in CONC_CLASSES for x in cls] + mass_per_volume:
+        solute = dmso if ('v/v' in c or 'L/L' in c or ('mL/' in c and 'g' not in c.split('/')[0]) or 'uL/' in c) else nacl
+        def direct_and_recipe(kind):
+            if kind == 'dilute':
+                d = lambda: stock.dilute(solute, c, water)                                            # noqa
+                def r():
+                    rc = pp.Recipe()
+                    rc.uses(stock)
+                    rc.dilute(stock, solute, c, water)
+                    return rc.bake()['stock']
+            elif kind == 'create_solution_from':
+                d = lambda: C.create_solution_from(stock, solute, c, water, '10 mL', 'x')[1]          # noqa
+                def r():
+                    rc = pp.Recipe()
+                    rc.uses(stock)
+                    rc.create_solution_from(stock, solute, c, water, '10 mL', 'x')
+                    return rc.bake()['x']
+            else:
+                d = lambda: C.create_solution(solute, water, 'x', concentration=c, total_quantity='20 mL')   # noqa
+                def r():
+                    rc = pp.Recipe()
+                    rc.create_solution(solute, water, 'x', concentration=c, total_quantity='20 mL')
+                    return rc.bake()['x']
+            return d, r
+        for kind in ('dilute', 'create_solution_from', 'create_solution'):
+            if solute is dmso and kind != 'create_solution':
+                continue
+            n += 1
+            d, r = direct_and_recipe(kind)
+            outs = []
+            for f in (d, r):
+                try:
+                    outs.append(_contents(f(), pp))
+                except Exception as e:  # noqa
+                    outs.append('raises')
+            same = (outs[0] == outs[1]) if 'raises' in outs else _same(outs[0], outs[1])
+            if not same:
+                viols.append(V(f"{kind} | spelling-not-equivalent | recipe-step-vs-container",
+                               f"{kind} with the concentration {c!r}: the container operation gives {outs[0]}, the same call as a "
+                               f"recipe step gives {outs[1]}", {'parser': 'equivalence'}, outs[0], outs[1]))
+    # a list of concentrations in different spellings / unit pairs means the same whatever the order of the solutes
+    so4 = subs['na2so4']
+    for c1, c2 in (('0.1 M', '0.2 m'), ('0.1 mol/L', '0.2 mol/kg'), ('5 g/L', '1 %w/w'), ('0.05 mol/L', '0.002 mol/mol'),
+                   ('20 mg/mL', '0.1 m'), ('0.3 M', '30 g/kg')):
+        n += 1
+        outs = []
+        for sol, cs in (([nacl, so4], [c1, c2]), ([so4, nacl], [c2, c1])):
+            try:
+                outs.append(_contents(C.create_solution(sol, water, 'x', concentration=cs, total_quantity='50 mL'), pp))
+            except Exception as e:  # noqa
+                outs.append('raises ' + type(e).__name__)
+        same = (outs[0] == outs[1]) if any(isinstance(o, str) for o in outs) else _same(outs[0], outs[1])
+        if not same:
+            viols.append(V("create_solution | spelling-not-equivalent | order-of-solutes-with-mixed-unit-pairs",
+                           f"create_solution([nacl, na2so4], concentration=[{c1!r}, {c2!r}]) gives {outs[0]} but the same request "
+                           f"with the two solutes listed in the other order gives {outs[1]}", {'parser': 'equivalence'},
+                           outs[0], outs[1]))
     src = C('src', initial_contents=[(water, '50 mL'), (nacl, '100 mmol')])
     dst = C('dst', '100 mL')
     for cls in QTY_CLASSES:
